@@ -84,7 +84,11 @@ const (
 	MExtra0 // methods from extra config entries follow
 )
 
-var methodNames = []string{"/svc/Plain", "/svc/Bind", "/svc/Bound", "/svc/Unbind", "/svc/NoAff", "/svc/X0", "/svc/X1", "/svc/X2"}
+var methodNames = []string{"/svc/Plain", "/svc/Bind", "/svc/Bound", "/svc/Unbind", "/svc/NoAff", "/svc/X0", "/svc/X1", "/svc/X2",
+	// never configured, odd but possible: the empty method name and one without the leading slash
+	"", "svc/NoSlash"}
+
+const MOdd0 = 8
 
 // Locator variants.
 var locators = []string{"name", "nested.name", "names", "items.name", "nosuch.field", "num", "", ".name", "name.", "nested..name", "items.", "nested.name.x", "."}
@@ -449,6 +453,9 @@ func Generate(r *rand.Rand, profile string, concurrent bool, av Avoid) *Plan {
 				}
 				if r.IntN(25) == 0 {
 					o.F |= FlagNilMsg
+				}
+				if r.IntN(30) == 0 {
+					o.B = MOdd0 + r.IntN(2)
 				}
 			}
 		case OpDone:
